@@ -334,4 +334,42 @@ def extra_obligations(w, tier, seed):
     out.append(_ob('scan/migration-helpers/return-type', 'ddl.py: every helper of compile_dispatch_ql_migration (except _describe_current_migration) returns a MigrationControlQuery or a DDLQuery on every path, '
                    'so that the dispatcher attaches DDL (and TRANSACTION when a transaction is opened / closed)', bool(helpers) and not bad and not unsure,
                    where='; '.join((bad + unsure)[:6]) or 'helpers: %s' % sorted(helpers.values()), undecided=(not bad)))
+    # 11. SQL over the binary protocol (sql.py is not under contract: 330-line dispatcher over pgast).  Shape obligations on the flag computation:
+    #     (a) _compile_sql: at the top level of the per-statement loop, after the dispatch chain, `isinstance(stmt, pgast.DMLQuery)` adds MODIFICATIONS and
+    #         `unit.tx_action is not None` adds TRANSACTION, both before the unit is appended; every write to a `.capabilities` in sql.py is `|=` (flags are never taken back);
+    #     (b) compile_sql_as_unit_group: the QueryUnit is built with capabilities=sql_unit.capabilities and appended to the group inside the same loop.
+    SQLPY = 'edb/server/compiler/sql.py'
+    fn, _ = repo.find_def(SQLPY, '_compile_sql')
+    loops_ = [n for n in fn.body if isinstance(n, ast.For) and 'stmts' in ast.unparse(n.iter)]
+    ok_a = False; why = 'per-statement loop not found'
+    if len(loops_) == 1:
+        body = loops_[0].body
+        def guard_adds(test_pred, flag):
+            for k, st in enumerate(body):
+                if isinstance(st, ast.If) and test_pred(ast.unparse(st.test).replace(' ', '')) and not st.orelse:
+                    if any(isinstance(x, ast.AugAssign) and isinstance(x.op, ast.BitOr) and ast.unparse(x.target) == 'unit.capabilities' and ast.unparse(x.value) == 'enums.Capability.' + flag for x in st.body):
+                        return k
+            return None
+        k_dml = guard_adds(lambda t: t == 'isinstance(stmt,pgast.DMLQuery)', 'MODIFICATIONS')
+        k_tx = guard_adds(lambda t: t in ('unit.tx_actionisnotNone',), 'TRANSACTION')
+        k_app = [k for k, st in enumerate(body) if isinstance(st, ast.Expr) and ast.unparse(st.value) == 'sql_units.append(unit)']
+        ok_a = k_dml is not None and k_tx is not None and len(k_app) == 1 and k_dml < k_app[0] and k_tx < k_app[0]
+        why = 'DML guard at %s, tx guard at %s, append at %s (statement ordinals of the loop body)' % (k_dml, k_tx, k_app)
+    mod_sql = repo.module(SQLPY)
+    badw = ['line %d: %s' % (n.lineno, ast.unparse(n)[:60]) for n in ast.walk(mod_sql.tree)
+            if (isinstance(n, ast.Assign) and any(isinstance(t, ast.Attribute) and t.attr == 'capabilities' for t in n.targets))
+            or (isinstance(n, ast.AugAssign) and isinstance(n.target, ast.Attribute) and n.target.attr == 'capabilities' and not isinstance(n.op, ast.BitOr))]
+    out.append(_ob('scan/sql/_compile_sql/flags', '_compile_sql: a top-level DML statement adds MODIFICATIONS and a transaction action adds TRANSACTION before the unit is appended; '
+                   'capabilities are only ever or-ed in sql.py', ok_a and not badw, where=why + ('; ' + '; '.join(badw[:3]) if badw else ''), undecided=(len(loops_) != 1)))
+    fn, _ = repo.find_def(COMP, 'compile_sql_as_unit_group')
+    ok_b = False; whyb = 'loop over sql_units not found'
+    for lp in [n for n in fn.body if isinstance(n, ast.For) and ast.unparse(n.iter) == 'sql_units']:
+        ctor = [n for n in ast.walk(lp) if isinstance(n, ast.Call) and ast.unparse(n.func) == 'dbstate.QueryUnit']
+        caps = [ast.unparse(k.value) for c_ in ctor for k in c_.keywords if k.arg == 'capabilities']
+        apps = [st for st in lp.body if isinstance(st, ast.Expr) and ast.unparse(st.value) == 'qug.append(unit)']
+        rewr = [n.lineno for n in ast.walk(lp) if isinstance(n, (ast.Assign, ast.AugAssign)) and 'unit.capabilities' in [ast.unparse(t) for t in (n.targets if isinstance(n, ast.Assign) else [n.target])]]
+        ok_b = len(ctor) == 1 and caps == ['sql_unit.capabilities'] and len(apps) == 1 and not rewr
+        whyb = 'constructors %d, capabilities=%s, appends %d, later writes %s' % (len(ctor), caps, len(apps), rewr)
+    out.append(_ob('scan/sql/compile_sql_as_unit_group/flags', 'compile_sql_as_unit_group: every unit is built with capabilities=sql_unit.capabilities, never rewritten, and appended to the group',
+                   ok_b, where=whyb, undecided=('not found' in whyb)))
     return out
